@@ -47,7 +47,9 @@ theorem pushGuard_sub {s : Server} {f : Flight} {p : List ChangeReq} (h : pushGu
       · injection h with h; subst h; intro x hx; simp at hx
       · split at h
         · simp at h
-        · injection h with h; subst h; exact hsub
+        · split at h
+          · injection h with h; subst h; intro x hx; simp at hx
+          · injection h with h; subst h; exact hsub
   · injection h with h; subst h; exact hsub
 
 theorem stripped_of_not_dp {f : Flight} (h : f.disablePresence = false) : stripped f = f := by
